@@ -131,6 +131,29 @@ func jobsFor(prop, tier string) []Job {
 				js[i].IgnorePanics = prop != "C05"
 			}
 		}()
+	case "C12", "C15":
+		mk := func(name string, p map[string]int, dev int, eager bool) Job {
+			j := Job{Name: name, Pkg: "", Fn: "VH_CONC", Inits: true, Samples: 3, Params: p, Sched: dev > 0, MaxDev: dev, Eager: eager, Replay: "gated",
+				Bounds:  map[string]any{"writer_goroutines": p["WRITERS"], "commits_per_writer": p["COMMITS"], "reader": "one View with two Gets on the harness goroutine", "background": "the engine's real flusher/compactor and watermark goroutines", "ImmutableBuffer": "0..IBMAX", "schedules": "every choice of the next goroutine at blocking points plus up to preemption_bound preemptions after non-blocking synchronisation operations", "preemption_bound": dev, "params": p},
+				Assumes: []string{"Go memory model for Mutex/RWMutex/channels/atomics/WaitGroup/sync.Pool as modelled by the cooperative runtime (vector-clock happens-before monitor)", "context switches only at synchronisation operations (sufficient for data-race-free executions; races themselves are reported by the monitor)", aFS, aClock, "races are confirmed by the Go race detector on a gated native replay of the engine's schedule"},
+				Outside: []string{"more goroutines/commits, more preemptions than the bound", "starvation under unfair schedulers, wall-clock latency"}}
+			if prop == "C12" {
+				j.Races = true
+				j.OnlyAsserts = []string{"C12."}
+			} else {
+				j.OnlyAsserts = []string{"C15."}
+			}
+			return j
+		}
+		js = []Job{
+			mk("conc-1w2c-dev1", params("WRITERS", 1, "COMMITS", 2, "IBMAX", 1), 1, false),
+			mk("conc-1w2c-eager", params("WRITERS", 1, "COMMITS", 2, "IBMAX", 2), 0, true),
+		}
+		if thorough {
+			js = append(js, mk("conc-1w2c-dev2", params("WRITERS", 1, "COMMITS", 2, "IBMAX", 2), 2, false),
+				mk("conc-2w2c-dev1", params("WRITERS", 2, "COMMITS", 2, "IBMAX", 1), 1, false),
+				mk("conc-1w3c-closeearly-dev1", params("WRITERS", 1, "COMMITS", 3, "IBMAX", 1, "CLOSE_EARLY", 1), 1, false))
+		}
 	case "C09":
 		mk := func(name string, p map[string]int) Job {
 			return Job{Name: name, Pkg: "", Fn: "VH_C09", Inits: true, FilterSummary: true, Samples: 4, Params: p,
